@@ -23,12 +23,13 @@ func init() {
 	reg("C12", ruleFetchImpliesCheckout)
 	reg("C18", ruleFetchImpliesCheckout)
 	// clauses that decided a change of round 11 under another property than the one the change was written for
-	reg("C11", ruleArityCheckedBeforeResolution) // C11-22: arguments given to a non-generic type accepted, files written
-	reg("C04", ruleSpellingErased)               // C04-22: the schema kept the spelling of a generic reference
-	reg("C13", ruleSymbolTableWritesScoped)      // C13-22: type parameters leaked into the shared table
-	reg("C08", ruleWriteIfNeeded)                // C08-22: a stale generated file next to regenerated ones
-	reg("C03", ruleStateMachine)                 // C03-24: an end-of-stream marker emitted in the middle of a stream
-	reg("C20", ruleCollectPackages)              // C20-23: an import cycle that is not detected wedges the watcher
+	reg("C11", ruleArityCheckedBeforeResolution)             // C11-22: arguments given to a non-generic type accepted, files written
+	reg("C04", ruleSpellingErased)                           // C04-22: the schema kept the spelling of a generic reference
+	reg("C13", ruleSymbolTableWritesScoped)                  // C13-22: type parameters leaked into the shared table
+	reg("C08", ruleWriteIfNeeded)                            // C08-22: a stale generated file next to regenerated ones
+	reg("C03", ruleStateMachine)                             // C03-24: an end-of-stream marker emitted in the middle of a stream
+	reg("C20", ruleCollectPackages)                          // C20-23: an import cycle that is not detected wedges the watcher
+	reg("C10", ruleResolvedDefinitionSwitchesResolveAliases) // fix 7bf9700: a Go panic of `yardl generate` on an accepted package
 }
 
 // ---------------------------------------------------------------------------------------------------------------
